@@ -13,6 +13,29 @@ Theorem C02_get_put : forall c k v raw,
 Proof. exact get_put. Qed.
 Print Assumptions C02_get_put.
 
+(* float('nan') is a key like any other (repair of finding C02-F2): the key domain excludes only unencodable text and
+   streams; every NaN is the same key and differs from every other key (key_eq compares non-numbers by type and
+   structure), so C02_identity / C02_get_put cover it: one entry, reached by get / in / del / pop, listed as NaN *)
+Theorem C02_key_domain : forall k,
+  key_domain k = match k with VStr s => encodable s | VStream _ => false | _ => true end.
+Proof. exact key_domain_spec. Qed.
+Print Assumptions C02_key_domain.
+
+Theorem C02_nan_is_one_key :
+  key_domain (VFloat FNaN) = true /\ key_eq (VFloat FNaN) (VFloat FNaN) = true /\
+  forall k, k <> VFloat FNaN -> key_eq (VFloat FNaN) k = false /\ key_eq k (VFloat FNaN) = false.
+Proof. exact nan_is_one_key. Qed.
+Print Assumptions C02_nan_is_one_key.
+
+(* Disk.put never hands SQLite a NULL key (nor a REAL NaN, which SQLite stores as NULL): every key, every codec *)
+Theorem C02_put_never_null : forall c k dbk raw, put c k = PutOk dbk raw -> dbk <> SNull /\ dbk <> SReal FNaN.
+Proof. exact put_never_null. Qed.
+Print Assumptions C02_put_never_null.
+
+Theorem C02_put_nan : forall c, put c (VFloat FNaN) = PutOk (SBlob (pkk c (VFloat FNaN))) false.
+Proof. exact put_nan. Qed.
+Print Assumptions C02_put_nan.
+
 Theorem C02_json_identity : forall c j k1 k2,
   db_same (jput c j k1) (jput c j k2) = zlist_eqb (jz j k1) (jz j k2).
 Proof. exact json_key_identity. Qed.
@@ -28,18 +51,42 @@ Print Assumptions C02_json_int_float_refuted.
 
 (* ---- key-ordered iteration (Cache.iterkeys) never aliases or drops a key: for every table size (any number
         of 100-row pages) it lists every stored (key, raw) pair exactly once, strictly ascending (descending for
-        reverse=True) in the database key order.  NULL keys (float('nan') binds as NULL) are excluded: the
-        full statement is refuted in C03_iterkeys_null_key_refuted (finding C02-F2 / C03-F1). ---- *)
+        reverse=True) in the database key order.  The table must hold no NULL key (keys_ok; the clause cannot be
+        dropped: C03_iterkeys_null_key_table_incomplete).  Since the repair of finding C02-F2 / C03-F1 Disk.put
+        yields no NULL key (C02_put_never_null), the clause is part of the state invariant Winv and holds in every
+        state reachable through the API: C02_iterkeys_each_key_once_reachable has no hypothesis on the keys. ---- *)
 From Coq Require Import Permutation.
-From DC Require Import SqlBase Gen_Sql Cache SinvFacts IterkeysFacts.
+From DC Require Import SqlBase Gen_Sql Cache TableFacts SqlOrderFacts SinvFacts IterkeysFacts.
 
+(* general form: any table with pairwise distinct rows, (key, raw) unique under the SQLite comparison, no REAL NaN and no
+   NULL key *)
+Theorem C02_iterkeys_each_key_once_table : forall s reverse,
+  NoDup (rows s) /\ keys_unique (rows s) /\ (forall r, In r (rows s) -> sv_wf (rkey r) = true) /\
+  (forall r, In r (rows s) -> rkey r <> SNull) ->
+  exists l, op_iterkeys s reverse = (s, RKeys l) /\
+            Permutation l (keys_of (rows s)) /\ NoDup l /\ pairs_sorted reverse l /\
+            length l = length (rows s).
+Proof. exact iterkeys_result_table. Qed.
+Print Assumptions C02_iterkeys_each_key_once_table.
+
+(* every state satisfying the invariant (Winv: SinvFacts; it now contains "no NULL key") *)
 Theorem C02_iterkeys_each_key_once : forall s reverse,
-  Winv s -> forallb (fun r => key_nonnull (rkey r)) (rows s) = true ->
+  Winv s ->
   exists l, op_iterkeys s reverse = (s, RKeys l) /\
             Permutation l (keys_of (rows s)) /\ NoDup l /\ pairs_sorted reverse l /\
             length l = length (rows s).
 Proof. exact iterkeys_result. Qed.
 Print Assumptions C02_iterkeys_each_key_once.
+
+(* every state reachable from the empty cache: any configuration, any history of calls other than push *)
+Theorem C02_iterkeys_each_key_once_reachable : forall c h reverse,
+  (forall x, In x h -> is_push (fst (fst x)) = false) ->
+  let s := run c init_st h in
+  exists l, op_iterkeys s reverse = (s, RKeys l) /\
+            Permutation l (keys_of (rows s)) /\ NoDup l /\ pairs_sorted reverse l /\
+            length l = length (rows s).
+Proof. exact iterkeys_result_reachable. Qed.
+Print Assumptions C02_iterkeys_each_key_once_reachable.
 
 (* the order of the listing: sql_cmp on the keys (NULL < numeric < TEXT < BLOB), then raw; a strict total
    order on pairs whose key is not REAL NaN *)
